@@ -20,6 +20,7 @@ import (
 	"fmt"
 	"hash/fnv"
 	"os"
+	"os/exec"
 	"path/filepath"
 	"regexp"
 	"runtime"
@@ -755,4 +756,57 @@ func SameConcurrently(names []string, fns []func(string) string, inputs []string
 	}
 	wg.Wait()
 	return bad
+}
+
+// FirstOps checks operations that must work as the very first use of the library in a process (package-level state
+// that is set up lazily, or by init, must not depend on which entry point happens to be called first). Every
+// generated case of the ordinary sub-checks runs in a process that has already used the library thousands of times;
+// here each operation gets a process of its own: the test binary re-executes itself once per operation with
+// VERIF_FIRSTOP=<name>, and the child runs nothing but that operation.
+// Call it from a Test function: in the parent it returns after all children have been judged; in a child it runs the
+// operation, prints the verdict and exits.
+func FirstOps(t *testing.T, statsName, testName string, names []string, ops map[string]func() error) {
+	if child := os.Getenv("VERIF_FIRSTOP"); child != "" {
+		op := ops[child]
+		if op == nil {
+			fmt.Println("FIRSTOP-FAIL: unknown operation " + child)
+			os.Exit(3)
+		}
+		err := func() (err error) {
+			defer func() {
+				if p := recover(); p != nil {
+					err = fmt.Errorf("PANIC: %v\n%s", p, trimStack(debug.Stack()))
+				}
+			}()
+			return op()
+		}()
+		if err != nil {
+			fmt.Println("FIRSTOP-FAIL: " + strings.ReplaceAll(err.Error(), "\n", " | "))
+			os.Exit(3)
+		}
+		fmt.Println("FIRSTOP-OK")
+		os.Exit(0)
+	}
+	st := Stats(statsName)
+	st.SetExhaustive(true)
+	for _, name := range names {
+		cmd := exec.Command(os.Args[0], "-test.run", "^"+testName+"$", "-test.count=1")
+		cmd.Env = append(os.Environ(), "VERIF_FIRSTOP="+name, "VERIF_EV_OUT=")
+		out, err := cmd.CombinedOutput()
+		js, _ := json.Marshal(map[string]string{"first_operation": name})
+		rec := &Rec{}
+		rec.NonTrivial()
+		rec.Class("first operation: " + name)
+		st.Case(js, rec)
+		if strings.Contains(string(out), "FIRSTOP-OK") && err == nil {
+			continue
+		}
+		msg := "the child process gave no verdict: " + trunc(string(out), 1500)
+		if i := strings.Index(string(out), "FIRSTOP-FAIL: "); i >= 0 {
+			msg = strings.TrimSpace(strings.SplitN(string(out)[i+len("FIRSTOP-FAIL: "):], "\n", 2)[0])
+		}
+		e := fmt.Errorf("as the first use of the library in a fresh process, %s fails: %s", name, msg)
+		st.Violation("first-op", js, e)
+		t.Errorf("%v", e)
+	}
 }
